@@ -117,6 +117,8 @@ pub fn digest<T: Hash>(t: &T) -> u64 {
     hash64(t)
 }
 
+static FIRST_UNKNOWN: std::sync::OnceLock<std::time::Instant> = std::sync::OnceLock::new();
+
 impl Run {
     /// Parse `argv`: `<bin> quick|thorough [--replay <file>]`; seed from `VERIF_SEED`.
     pub fn from_args(id: &str, level: &str) -> Run {
@@ -282,6 +284,25 @@ impl Run {
             .any(|k| k.status == "open" && k.property == self.id && k.signature == signature)
     }
 
+    /// Remember when the first violation (failure with a signature that is not a known finding) was seen.
+    fn mark_unknown(&self) {
+        let _ = FIRST_UNKNOWN.get_or_init(std::time::Instant::now);
+    }
+
+    /// True once a violation is on record and `VERIF_AFTER_FAIL_SECS` (default 300) have passed since: the verdict
+    /// is already "violation", so the remaining generated / enumerated cases are skipped (counted) instead of making
+    /// a check whose every case is slow under a defect (hangs up to a watchdog) run for hours.
+    pub fn past_fail_deadline(&self) -> bool {
+        let lim: u64 = std::env::var("VERIF_AFTER_FAIL_SECS").ok().and_then(|v| v.parse().ok()).unwrap_or(300);
+        match FIRST_UNKNOWN.get() {
+            Some(t) if t.elapsed().as_secs() > lim => {
+                self.count("skipped_after_violation");
+                true
+            }
+            _ => false,
+        }
+    }
+
     /// Handle a failed case: known finding -> remembered (search continues), else violation.
     /// Returns true when the failure is a new violation.
     pub fn fail(&self, check: &str, f: &Fail, case: Value) -> bool {
@@ -295,6 +316,7 @@ impl Run {
                 .or_insert(0) += 1;
             return false;
         }
+        self.mark_unknown();
         let dir = verif_root().join("replays").join(&self.id);
         let _ = std::fs::create_dir_all(&dir);
         let body = json!({
@@ -382,6 +404,9 @@ impl Run {
         }
         let mut seen_sigs: BTreeSet<String> = BTreeSet::new();
         for v in cases {
+            if self.past_fail_deadline() {
+                continue;
+            }
             self.eval();
             let r = test(&v);
             let jv = || serde_json::to_value(&v).unwrap_or(Value::Null);
@@ -421,6 +446,9 @@ impl Run {
                     if i >= n {
                         break;
                     }
+                    if self.past_fail_deadline() {
+                        continue;
+                    }
                     self.eval();
                     match test(&cases[i]) {
                         Ok(()) => {
@@ -428,7 +456,12 @@ impl Run {
                                 self.sample(check, serde_json::to_value(&cases[i]).unwrap_or(Value::Null));
                             }
                         }
-                        Err(f) => fails.lock().unwrap().push((i, f)),
+                        Err(f) => {
+                            if !self.is_known(&f.signature) {
+                                self.mark_unknown();
+                            }
+                            fails.lock().unwrap().push((i, f))
+                        }
                     }
                 });
             }
@@ -496,6 +529,9 @@ impl Run {
         // Hand-rolled loop (instead of runner.run) so that known findings do not end the campaign
         // and so that counting stops exactly when shrinking starts.
         for _ in 0..cases {
+            if self.past_fail_deadline() {
+                continue;
+            }
             let mut tree = match strat.new_tree(&mut runner) {
                 Ok(t) => t,
                 Err(e) => {
@@ -513,15 +549,20 @@ impl Run {
                     self.fail(check, &f, Value::Null);
                 }
                 Err(f0) => {
+                    self.mark_unknown();
                     // shrink: freeze counters, walk the value tree while the case still fails
                     // with an *unknown* signature.
                     let was = self.frozen.swap(true, std::sync::atomic::Ordering::SeqCst);
                     let mut best = (v, f0);
                     let mut iters = 0;
+                    // shrinking only serves minimality (the failure is already established): bound it by steps and by
+                    // wall-clock, so that a failure whose every re-run is slow (a hang up to its watchdog) still ends
+                    let shrink_t0 = std::time::Instant::now();
+                    let shrink_secs: u64 = std::env::var("VERIF_SHRINK_SECS").ok().and_then(|v| v.parse().ok()).unwrap_or(240);
                     if tree.simplify() {
                         loop {
                             iters += 1;
-                            if iters > 400 {
+                            if iters > 400 || shrink_t0.elapsed().as_secs() > shrink_secs {
                                 break;
                             }
                             let cur = tree.current();
